@@ -262,6 +262,10 @@ func (x *Exec) staticCallFrame(ci ssa.CallInstruction, loop map[*ssa.BasicBlock]
 	if c.IsInvoke() {
 		// union over module implementations; external interfaces follow the external rule
 		recvT := c.Value.Type()
+		// ghost state named by the interface method's own contract is written whatever the implementation is
+		if fc, ok := p.Contracts[ifaceMethodKey(recvT, c.Method.Name())]; ok {
+			x.ghostSetFrame(nil, fc, frame)
+		}
 		if named, ok := recvT.(*types.Named); ok && named.Obj().Pkg() != nil && !inModule(named.Obj().Pkg()) || !moduleInterface(recvT) {
 			x.externalArgsFrame(c.Args, loop, cells, frame)
 			return
